@@ -60,7 +60,7 @@ macro_rules! prepare_frame_proof {
         /// reversing).  C01: the master index brackets the normalized time (`hint_ok`).
         #[kani::proof]
         #[kani::stub(TimeScale::get_position, arbitrary_position_stub)]
-        #[kani::unwind(5)]
+        #[kani::unwind(20)]
         pub(crate) fn $name() {
             let bt: [f32; $n] = kani::any();
             let ts = tsv::any_timescale();
@@ -93,13 +93,16 @@ prepare_frame_proof!(prepare_frame_n1, 1);
 prepare_frame_proof!(prepare_frame_n2, 2);
 prepare_frame_proof!(prepare_frame_n3, 3);
 prepare_frame_proof!(prepare_frame_n4, 4);
+prepare_frame_proof!(prepare_frame_n6, 6);
+prepare_frame_proof!(prepare_frame_n8, 8);
+prepare_frame_proof!(prepare_frame_n16, 16);
 
 /// The index part alone, for any normalized position in [0,1] (what the binary search does),
 /// on sorted slices with repeated positions: bounded by the slice length.
 macro_rules! search_index_proof {
     ($name:ident, $n:expr) => {
         #[kani::proof]
-        #[kani::unwind(5)]
+        #[kani::unwind(20)]
         pub(crate) fn $name() {
             let bt: [f32; $n] = kani::any();
             let nt: f32 = kani::any();
@@ -117,6 +120,9 @@ search_index_proof!(search_index_n1, 1);
 search_index_proof!(search_index_n2, 2);
 search_index_proof!(search_index_n3, 3);
 search_index_proof!(search_index_n4, 4);
+search_index_proof!(search_index_n6, 6);
+search_index_proof!(search_index_n8, 8);
+search_index_proof!(search_index_n16, 16);
 
 // -- Repeat ------------------------------------------------------------------------------------
 
@@ -447,7 +453,7 @@ macro_rules! builder_args_proof {
         /// position, the boundary times are exactly the positions of those sorted keyframes
         /// (same index), and no keyframe is lost or duplicated.
         #[kani::proof]
-        #[kani::unwind(6)]
+        #[kani::unwind(10)]
         pub(crate) fn $name() {
             let mut cfg: TimelineConfiguration<u8> = TimelineConfiguration::default();
             let mut times = [0.0f32; $n];
@@ -491,6 +497,9 @@ builder_args_proof!(builder_args_n0, 0);
 builder_args_proof!(builder_args_n1, 1);
 builder_args_proof!(builder_args_n2, 2);
 builder_args_proof!(builder_args_n3, 3);
+builder_args_proof!(builder_args_n4, 4);
+builder_args_proof!(builder_args_n5, 5);
+builder_args_proof!(builder_args_n7, 7);
 
 /// Canary: must FAIL.
 #[kani::proof]
